@@ -248,6 +248,9 @@ class GUI():
             kwargs['max_bp_iter'] = max_bp_iter
         if decoder_name == 'BP-OSD':
             kwargs['osd_order'] = 0
+            kwargs['channel_update'] = bool(
+                content.get('channel_update', False)
+            )
         if decoder_name == 'MBP':
             kwargs['alpha'] = alpha
             kwargs['beta'] = beta
